@@ -206,6 +206,15 @@ def monitor_syspath(case, obs):
     """add_sys_path: a directory is on sys.path at most once (unless it already was there more
     often), and a directory that does not exist is never added."""
     out = []
+    # every caller gets what every other caller gets: when add_sys_path(d) returns for an existing
+    # directory d - to any thread, at any point of any schedule - d is on sys.path
+    for t, nm, on in obs.get('returns', []):
+        if case['dirs'][nm] and not on:
+            out.append(fail('sys-path-on-return',
+                            f'add_sys_path({nm!r}) returned to thread {t} while the existing directory is '
+                            f'not on sys.path (another thread is still inside add_sys_path for it): this '
+                            f"caller's module look-up fails where the others' succeed",
+                            'sys-path-missing-after-return'))
     for nm, cnt in obs['counts'].items():
         if cnt > 1:
             out.append(fail('sys-path-once', f'directory {nm!r} is on sys.path {cnt} times after concurrent '
